@@ -346,7 +346,7 @@ func scLogin(r *Run) {
 		// a long file in which a malformed line (two key texts glued together) straddles a block boundary: its
 		// first half alone would be a well-formed entry
 		if len(others) > 0 && r.Intn("file", 12) == 0 {
-			boundary := 1 << uint([]int{9, 12, 13, 16, 16, 17, 20}[r.Intn("file", 7)])
+			boundary := 1 << uint([]int{9, 12, 13, 15, 16, 16, 17}[r.Intn("file", 7)])
 			g := others[r.Intn("file", len(others))]
 			glued := keyLine(g) + keyLine(others[r.Intn("file", len(others))])
 			var b []byte
@@ -362,11 +362,11 @@ func scLogin(r *Run) {
 				if padTo-len(b)-1-l == 1 { // never leave a single byte to fill
 					l--
 				}
-				b = append(b, ("#" + strings.Repeat("p", l-1) + "\n")...)
+				b = append(b, (strings.Repeat(" ", l) + "\n")...) // (blank lines: the only filler the parser skips)
 			}
 			if len(b) == padTo {
 				b = append(b, glued+"\n"...)
-				b = append(b, "# the end\n"...)
+				b = append(b, "\n"...)
 				sf.content = b
 				gluedProbe[u] = g
 				r.CountFault("fs/malformed-line-across-a-block-boundary", 1)
